@@ -30,7 +30,7 @@ func repoSite(skip int) string {
 	frames := runtime.CallersFrames(pc[:n])
 	for {
 		f, more := frames.Next()
-		if strings.Contains(f.Function, "github.com/robfig/soy/") {
+		if fw.IsRepoFunc(f.Function) {
 			helper := false
 			for _, h := range helperFrames {
 				if strings.Contains(f.Function, h) {
